@@ -18,19 +18,19 @@ LEVEL = "proof"
 MANIFEST_ENTRY = {
     "category": "proof",
     "text": "Lean 4 theorems over an executable model of the reliability-sorting unwrapper (edge construction for bounded/periodic grids with masks, union-find with offsets exactly as UnionFindPhase: no path compression, union by rank, the code's sign conventions; final offsets; mean removal; the bright-field embedding). The merge ORDER is an input of the model, so every theorem holds for every order the float reliability sort could produce. Proved for all sizes, masks, edge multigraphs (self-loops/duplicates included) and orders: termination of find (rank strictly increases to the root), the offset-consistency invariant (every stored offset is n(pixel)-n(parent) for any integer field the increments are differences of), Itoh => increments are wrap-count differences (over the reals, threshold pi), hence out - truth is constant on every connected component of the masked edge graph; out - input is in 2*pi*Z plus one constant for every input; smooth unwrapped input is returned up to one constant; same-tree edges are no-ops; the grid-level body of unwrap_bf_overlap_phase_torch (mask test, max-min>pi test, one or two passes) returns the truth up to a constant per connected overlap region in every branch; the model's edge graph is the 4-neighbour graph (bounded and periodic). The model is tied to the code on every run by exact differential streams (edge multisets, union-find arrays on the real edge order, final offsets, end-to-end fields, bf-overlap embedding) and the property predicate is evaluated on the real outputs with an independent connected-component / wrap-count oracle.",
-    "note": "Trusted: Lean kernel + propext/Classical.choice/Quot.sound; hand model validated by sampled correspondence only; torch indexing/roll/argsort/where semantics; IEEE rounding (inputs are dyadic multiples of pi kept >= 2^-6*pi away from the +-pi thresholds so no float comparison is decided by rounding; the real code keeps offsets in float32, measured deviation from the exact model is reported); float32 storage of edge indices inside torch.stack loses exactness above 2^24 pixels (outside the model); _pixel_reliability only decides the order and is therefore not modelled; the Poisson method is outside the claim; the scatter/gather indexing around the bf-overlap body (phase_grid[bf_mask] = ..., return phase_grid[bf_mask]) is tied by correspondence only.",
+    "note": "Trusted: Lean kernel + propext/Classical.choice/Quot.sound; hand model validated by sampled correspondence only; torch indexing/roll/argsort/where semantics; IEEE rounding (inputs are dyadic multiples of pi kept >= 2^-6*pi away from the +-pi thresholds so no float comparison is decided by rounding; the real code keeps offsets in float32, measured deviation from the exact model is reported); _pixel_reliability only decides the order and is therefore not modelled; the Poisson method is outside the claim; the scatter/gather indexing around the bf-overlap body (phase_grid[bf_mask] = ..., return phase_grid[bf_mask]) is tied by correspondence only.",
     "technique": "Lean 4 proof (forest/rank invariant, offset telescoping, Itoh lemma over R) + exact model-vs-implementation correspondence",
 }
 RULE = ("generated phase fields (ramps, quadratics, Gaussian bumps, band-limited random, periodic, raw non-smooth, "
-        "already-unwrapped) on grids up to 24x24 with masks (none, rectangle, annulus, multi-component, blobs with holes, "
-        "sparse, border-touching) and wrap_around on/off, float32/float64; a case is one call of the real unwrapper "
+        "already-unwrapped) on grids up to 24x24 (a few float16 fields up to 60x60) with masks (none, rectangle, annulus, multi-component, blobs with holes, "
+        "sparse, border-touching) and wrap_around on/off, float16/32/64; a case is one call of the real unwrapper "
         "(or one union-find run / one _build_edges call); distinct non-trivial = distinct (stream, field kind, mask kind, "
         "wrap, dtype, H, W, #mask components bucket, wrap-count range) among cases whose field really wraps "
         "(the true wrap count varies inside a connected mask component) or, for union-find runs, that perform at least 3 merges")
 TRUSTED = ["torch tensor indexing / roll / where / argsort / stack semantics (exercised, not verified)",
            "IEEE rounding: inputs are dyadic multiples of pi kept >= 2^-6*pi from the +-pi thresholds; offsets are float32 in the code, exact integers in the model",
            "_pixel_reliability only determines the merge order, which is an input of the model (any order is covered by the theorems)"]
-ASSUMPTIONS = ["grids <= 24x24 in the correspondence (theorems: all sizes); edge indices are exact in float storage below 2^24 pixels",
+ASSUMPTIONS = ["grids <= 24x24 in the correspondence, plus a few float16 fields on 46..60 x 46..60 grids (theorems: all sizes)",
                "Itoh is required on the edges actually used (inside the mask, including periodic seam edges when wrap_around=True); values outside the mask are arbitrary",
                "tolerance on assembled outputs: 5e-4*max(1,max|model|) (the code forces float32 offsets: 2*pi*incs is rounded to float32 even for float64 input); all wrap-count comparisons are exact integers"]
 EXPLANATION = ("Theorems in Props/C17.lean are about Model/Unwrap.lean (run at Rat, units of pi, by the driver; proved at R with "
@@ -397,6 +397,7 @@ def field_tensor(case):
 
 
 def check_property(ctx, case, key_prefix, q, w, n, out, lab, ncomp, smooth, global_const=False, only=None):
+    frac_tol = 5e-3 if case.get("dtype") == "float16" else 1e-3   # a wrong multiple of 2*pi shows as a fraction up to 0.5
     """the property on the real output `out` (list of floats, radians):
        (a) out - input in 2*pi*Z + one constant          (every input)
        (b) smooth input: out - truth constant on every connected mask component
@@ -416,7 +417,7 @@ def check_property(ctx, case, key_prefix, q, w, n, out, lab, ncomp, smooth, glob
         worst = max(worst, abs(r - ki))
         k[i] = ki
     ctx.stat_max(f"{key_prefix}:max |frac((out-in)/2pi)|", worst)
-    if worst > 1e-3:
+    if worst > frac_tol:
         pred_fail(ctx, f"{key_prefix}-mod-2pi", "result minus input is not an integer multiple of 2*pi plus one constant",
                       case, observed={"worst_fractional_part": worst}, required="(out-in-c)/(2*pi) integral for all pixels")
         return
@@ -499,7 +500,8 @@ def eval_unwrap_case(ctx, drv, case):
     reqs = [dict(base, op="edges"),
             {"op": "uf", "N": N, "edges": redges},
             dict(base, op="unwrap", order=[[a, b] for a, b, _ in redges])]
-    m_edges, m_uf, m_unw = drv.ask_many(reqs)
+    # one request at a time: pipelining large requests can dead-lock on the pipe buffers (qv.driver.ask_many)
+    m_edges, m_uf, m_unw = [drv.ask(r) for r in reqs]
     for m in (m_edges, m_uf, m_unw):
         if "driver" in str(m.get("err", "")):
             raise RuntimeError(f"driver error {m}")
